@@ -9,12 +9,13 @@ import (
 	"math/rand"
 	"os"
 	"reflect"
+	"strings"
 	"time"
 
 	ucfg "github.com/elastic/go-ucfg"
 )
 
-func pow2(n uint) *big.Int             { return new(big.Int).Lsh(big.NewInt(1), n) }
+func pow2(n uint) *big.Int              { return new(big.Int).Lsh(big.NewInt(1), n) }
 func bsub(a *big.Int, b int64) *big.Int { return new(big.Int).Sub(a, big.NewInt(b)) }
 func bneg(a *big.Int) *big.Int          { return new(big.Int).Neg(a) }
 
@@ -99,10 +100,10 @@ type nFloat32 float32
 var convTypes = map[string][2]reflect.Type{
 	"int8": {reflect.TypeOf(int8(0)), reflect.TypeOf(nInt8(0))}, "int16": {reflect.TypeOf(int16(0)), reflect.TypeOf(nInt16(0))},
 	"int32": {reflect.TypeOf(int32(0)), reflect.TypeOf(nInt32(0))}, "int64": {reflect.TypeOf(int64(0)), reflect.TypeOf(nInt64(0))},
-	"int": {reflect.TypeOf(int(0)), reflect.TypeOf(nInt(0))},
+	"int":   {reflect.TypeOf(int(0)), reflect.TypeOf(nInt(0))},
 	"uint8": {reflect.TypeOf(uint8(0)), reflect.TypeOf(nUint8(0))}, "uint16": {reflect.TypeOf(uint16(0)), reflect.TypeOf(nUint16(0))},
 	"uint32": {reflect.TypeOf(uint32(0)), reflect.TypeOf(nUint32(0))}, "uint64": {reflect.TypeOf(uint64(0)), reflect.TypeOf(nUint64(0))},
-	"uint": {reflect.TypeOf(uint(0)), reflect.TypeOf(nUint(0))},
+	"uint":    {reflect.TypeOf(uint(0)), reflect.TypeOf(nUint(0))},
 	"float64": {reflect.TypeOf(float64(0)), reflect.TypeOf(nFloat64(0))}, "float32": {reflect.TypeOf(float32(0)), reflect.TypeOf(nFloat32(0))},
 	"duration": {reflect.TypeOf(time.Duration(0)), reflect.TypeOf(time.Duration(0))},
 }
@@ -176,6 +177,29 @@ func runConv(tgt string, srcv interface{}, variant string) (o convObs) {
 			}
 			return
 		}
+		if strings.HasPrefix(variant, "unp-") {
+			// a typed unpacker (IntUnpacker / UintUnpacker / FloatUnpacker) is handed the value the getter of its kind gives
+			site := strings.TrimPrefix(variant, "unp-")
+			st, prep, rec := unpSite(unpForTarget[tgt], site)
+			cfg, err := ucfg.NewFrom(map[string]interface{}{"v": unpWrap(site, srcv)})
+			if err != nil {
+				o = convObs{err: true, msg: err.Error()}
+				return
+			}
+			target := reflect.New(st)
+			prep(target, false, false)
+			if err := cfg.Unpack(target.Interface()); err != nil {
+				o = convObs{err: true, msg: err.Error()}
+				return
+			}
+			r := rec(target)
+			if r == nil || r.Calls != 1 {
+				o = convObs{v: reflect.ValueOf("the unpacker was not called exactly once"), msg: "calls"}
+				return
+			}
+			o = convObs{v: reflect.ValueOf(r.Got)}
+			return
+		}
 		ft := types[0]
 		switch variant {
 		case "ptr":
@@ -237,6 +261,9 @@ func truncRat(r *big.Rat) *big.Int { return new(big.Int).Quo(r.Num(), r.Denom())
 
 // convExact: does the stored value equal the mathematically expected one?
 func convExact(n cnum, tgt string, v reflect.Value) bool {
+	if v.Kind() == reflect.String {
+		return false // the note of an unpacker route that was not called once
+	}
 	isFloat := v.Kind() == reflect.Float32 || v.Kind() == reflect.Float64
 	if n.K != "num" {
 		if !isFloat {
@@ -331,6 +358,9 @@ func convVariants(tgt string) []string {
 	switch tgt {
 	case "int64", "int", "uint64", "uint", "float64":
 		vs = append(vs, "getter")
+	}
+	if _, ok := unpForTarget[tgt]; ok {
+		vs = append(vs, "unp-field", "unp-ptr", "unp-pre", "unp-elem", "unp-pelem", "unp-mapval")
 	}
 	return vs
 }
